@@ -477,9 +477,11 @@ def run_history(hist, stats=None):
                     if stats is not None:
                         stats["resume_dir_reset_strategy_mismatch"] = stats.get("resume_dir_reset_strategy_mismatch", 0) + 1
                     prev = None
-                if prev is None or not (cfg["resume"] or cfg["dry_run"]):
-                    # (a dry run writes neither samples nor the marker: what an earlier run left stays authoritative)
-                    env.dirinfo[cfg["odir"]] = (cfg["save_strategy"], len(R._sseq))
+                if prev is None or not cfg["resume"]:
+                    # a run without resume rewrites the saved RNG state (also a dry run); a dry run writes neither
+                    # samples nor the marker, so the save strategy an earlier run left stays authoritative
+                    strat = prev if (cfg["dry_run"] and prev is not None) else cfg["save_strategy"]
+                    env.dirinfo[cfg["odir"]] = (strat, len(R._sseq))
             obs = invoke(env, cfg)
             if stats is not None:
                 stats["invocations"] = stats.get("invocations", 0) + 1
